@@ -109,7 +109,7 @@ def run(ctx):
                 roots = [F.projection_root(strip_sites(a)) for a in s.args]
                 names = [r[0].a[1] if r else None for r in roots]
                 ctx.ob("E5.chain", "MultiSignature<C>::verify->%s" % s.callee[0], names == ["pk", "self", "msg"], "forwards (accumulated key, own signature, message) as pure projections: %s" % names, where=where(v, bb))
-    K.check_core_table(ctx, P, traits=("BlsSignatureBasic", "BlsSignaturePop"))
+    K.check_core_forwarding(ctx, P, rule="E5.forward", methods=("verify", "multi_sig_verify"))
     from .posctl import run_posctl
 
     run_posctl(ctx, "E7.adapters", "adapters")
